@@ -1,4 +1,6 @@
 import OpusProofs.SoftClipFull
+import OpusProofs.SoftClipRound
+import OpusProofs.GainSkel
 import Mathlib.Algebra.Order.Field.Rat
 /-
   Property C19 — "Soft clipping and decoder gain post-processing obey their contracts".
@@ -115,6 +117,40 @@ theorem ramp_term_exact {F : Type} [Field F] [LinearOrder F] [IsStrictOrderedRin
   rw [if_pos ⟨h2, by omega, h3⟩, Nat.sub_self, Nat.cast_zero, mul_zero, add_zero] at this
   exact this
 
+/-- **bounded_rounded_stdmodel** (the binary32 gap, excursion map).  Standard model of rounded arithmetic:
+    each of the six inner operations `p = m*m; a0 = (m-1)/p; e = a0*epsf; a' = a0 + e; t1 = a'*x; t2 = t1*x`
+    returns its exact result times `(1+δᵢ)`, `|δᵢ| ≤ u` (`m-1` is exact for `1 < m ≤ 2`; the model is valid when no
+    intermediate underflows, which holds for `x ≥ 1`; for `x ≤ 1` the result is ≤ x ≤ 1 anyway because `t2 ≥ 0`).
+    If the boost exceeds four units of round-off, `4u ≤ epsf(1-u)(1-3u)`, then for every peak `1 < m ≤ 2` and every
+    sample `0 ≤ x ≤ m` the exact difference `x - t2` that the last operation rounds lies in `[0, 1 + (m-1)u]`;
+    hence any monotone final rounding that sends `[0, 1+u]` into `[0, 1]` (round-to-nearest-even does: `1+u` is
+    the midpoint above 1 and 1 is even) gives a result in `[0, 1]`.  This is the precise content of the source
+    comment "slightly boost a by 2^-22 … just enough": with `epsf = 0` the same computation allows `1 + 5(m-1)u`.
+    NOT covered: a proof that IEEE binary32 operations satisfy the standard model (taken from the literature),
+    and the continuation / ramp steps in rounded arithmetic (the ramp is clamped explicitly; the continuation
+    feeds the excursion search again); searched on the implementation (S4 incl. the directed `boost` sweep). -/
+theorem bounded_rounded_stdmodel {F : Type} [Field F] [LinearOrder F] [IsStrictOrderedRing F]
+    (rnd : F → F) (u epsf : F) (hr1 : ∀ y, y ≤ 1 + u → rnd y ≤ 1) (hr0 : ∀ y, 0 ≤ y → 0 ≤ rnd y)
+    (m x d1 d2 d3 d4 d5 d6 : F) (hu0 : 0 < u) (hu1 : u ≤ 1 / 16)
+    (heps : 4 * u ≤ epsf * (1 - u) * (1 - 3 * u)) (heps0 : 0 ≤ epsf) (heps1 : epsf ≤ 1 / 16)
+    (h1 : |d1| ≤ u) (h2 : |d2| ≤ u) (h3 : |d3| ≤ u) (h4 : |d4| ≤ u) (h5 : |d5| ≤ u) (h6 : |d6| ≤ u)
+    (hm1 : 1 < m) (hm2 : m ≤ 2) (hx0 : 0 ≤ x) (hxm : x ≤ m) :
+    let t2 := ((((m - 1) / (m * m * (1 + d1)) * (1 + d2)) + ((m - 1) / (m * m * (1 + d1)) * (1 + d2)) * epsf * (1 + d4)) *
+          (1 + d3) * x * (1 + d5)) * x * (1 + d6)
+    0 ≤ x - t2 ∧ x - t2 ≤ 1 + (m - 1) * u ∧ 0 ≤ rnd (x - t2) ∧ rnd (x - t2) ≤ 1 := by
+  intro t2
+  have lo := rounded_excursion_lower u epsf m x d1 d2 d3 d4 d5 d6 hu0 hu1 heps0 heps1 h1 h2 h3 h4 h5 h6 hm1 hm2 hx0 hxm
+  have up := rounded_excursion_upper u epsf m x d1 d2 d3 d4 d5 d6 hu0 hu1 heps (by linarith) h1 h2 h3 h4 h5 h6 hm1 hm2 hx0 hxm
+  refine ⟨lo, up, hr0 _ lo, hr1 _ ?_⟩
+  have : (m - 1) * u ≤ 1 * u := mul_le_mul_of_nonneg_right (by linarith) (le_of_lt hu0)
+  linarith
+
+/-- the code's constants: u = 2^-24 and `2.4e-7f` = 0x3480D959 = 8444249·2^-45 satisfy the hypotheses
+    (the boost is 4.0265 units of round-off; 4 + 16u would already do) -/
+example : (0 : ℚ) < 1 / 2 ^ 24 ∧ (1 : ℚ) / 2 ^ 24 ≤ 1 / 16 ∧
+    4 * ((1 : ℚ) / 2 ^ 24) ≤ (8444249 / 2 ^ 45) * (1 - 1 / 2 ^ 24) * (1 - 3 * (1 / 2 ^ 24)) ∧
+    (0 : ℚ) ≤ 8444249 / 2 ^ 45 ∧ (8444249 : ℚ) / 2 ^ 45 ≤ 1 / 16 := by norm_num
+
 /-- **gain_frame_condition**.  The decoder gain touches nothing but the sample values: the return value
     (sample count), `rangeFinal` and the number of samples are those of the gain-0 decode; gain 0 leaves
     the samples alone; a non-zero gain multiplies each sample by the one factor `gainOf g`. -/
@@ -130,6 +166,54 @@ theorem gain_frame_condition {α : Type} [ClipOps α] (gainOf : Int → α) (g :
 
 example : (@applyGain ℚ (fieldOps 0) (fun _ => (2 : ℚ)) 5 (@FrameOut.mk ℚ #[1, 3] 2 77)).pcm.size = 2 := by
   simp [applyGain]
+
+/-- **gain_transition_calls_gain0** (decoder skeleton `OpusModel/DecSkel.lean`, call structure of
+    `opus_decode_frame`).  The recursive concealment call made for a mode transition (`withGain0 inner`, what
+    the code does since fix 7e7e38ec) runs the inner frame on the caller's run with `decode_gain` replaced by 0
+    and nothing else changed, and hands back a run whose `decode_gain` is the caller's again (log and call
+    counter are the inner call's): the inner frame's own gain pass is skipped (`gain_pass_event`), the gain is
+    applied once, by the outer frame, to the cross-faded signal. -/
+theorem gain_transition_calls_gain0 (inner : DecSkel.Ptr → Int → DecSkel.Run → DecSkel.Res') (p : DecSkel.Ptr)
+    (n : Int) (r : DecSkel.Run) :
+    (GainSkel.withGain0 inner p n r).1 = (inner p n (r.setSt { r.st with decode_gain := 0 })).1 ∧
+    (r.setSt { r.st with decode_gain := 0 }).st.decode_gain = 0 ∧
+    (r.setSt { r.st with decode_gain := 0 }).log = r.log ∧ (r.setSt { r.st with decode_gain := 0 }).k = r.k ∧
+    (GainSkel.withGain0 inner p n r).2.st.decode_gain = r.st.decode_gain ∧
+    (GainSkel.withGain0 inner p n r).2.log = (inner p n (r.setSt { r.st with decode_gain := 0 })).2.log :=
+  ⟨rfl, rfl, rfl, rfl, rfl, rfl⟩
+
+/-- **gain_pass_event** (skeleton).  The gain pass of a frame (`stepGain`, the last step before the state
+    update) changes neither state nor call counter; with gain 0 it does nothing at all; with a non-zero gain it
+    is exactly one pass over `audiosize*channels` samples of the frame's own buffer. -/
+theorem gain_pass_event (b : DecSkel.Body) (r : DecSkel.Run) :
+    (DecSkel.stepGain b r).st = r.st ∧ (DecSkel.stepGain b r).k = r.k ∧
+    (r.st.decode_gain = 0 → DecSkel.stepGain b r = r) ∧
+    (r.st.decode_gain ≠ 0 →
+      (DecSkel.stepGain b r).log = .acc 11 b.pcm (b.audiosize * r.st.channels) :: r.log) :=
+  GainSkel.stepGain_event b r
+
+/-- **gain_frame_condition_skeleton** (skeleton, with C01's contracts).  The frame as the code is now
+    (`frameBodyG`: `DecSkel.frameBody` with the gain-clearing transition call) satisfies everything C01 proves of
+    `frameBody`: under the oracle contracts it returns `audiosize`, keeps the decoder invariant and every access
+    in bounds, and leaves `decode_gain` — like rate, channel count, mode, … (`FrameRel`) — unchanged; the
+    gain-clearing call meets the contract of the transition call (`TransOk`) whenever the plain call does.
+    NOT proved: that the frame's return value, final state and the non-gain events are literally the same
+    function of the inputs for gain `g` and gain 0 (needs a pass over every stage of the 700-line skeleton);
+    `DecSkel.transCall` itself (C01's file) still passes the caller's gain to the inner call. -/
+theorem gain_frame_condition_skeleton {o : DecSkel.Oracle} (ho : DecSkel.OracleOk o) {st0 : DecSkel.DecState}
+    {cap0 : Int} {inner : DecSkel.Ptr → Int → DecSkel.Run → DecSkel.Res'} {b : DecSkel.Body} {r : DecSkel.Run} {u : Int}
+    (hg : DecSkel.Good st0 cap0 r) (hu : DecSkel.Units r.st u) (hb : DecSkel.BodyOk r.st u b)
+    (hroom : b.pcm.room (b.audiosize * r.st.channels)) (hcap : DecSkel.PtrCapOk st0 cap0 b.pcm)
+    (htr : b.data.isSome → DecSkel.TransOk st0 cap0 u inner) :
+    (∃ r', GainSkel.frameBodyG o inner b r = (.ret b.audiosize, r') ∧ DecSkel.Good st0 cap0 r' ∧
+      DecSkel.FrameRel r.st r'.st ∧ r'.st.prev_mode = b.mode) ∧
+    (DecSkel.TransOk st0 cap0 u inner → DecSkel.TransOk st0 cap0 u (GainSkel.withGain0 inner)) :=
+  ⟨GainSkel.frameBodyG_spec ho hg hu hb hroom hcap htr, GainSkel.withGain0_transOk⟩
+
+/-- the contract of the transition call is satisfiable (a call that returns at once); the remaining
+    hypotheses are those of C01's `frameBody_spec` (non-vacuity: OpusProps/C01.lean) -/
+example (st0 : DecSkel.DecState) (cap0 u : Int) : DecSkel.TransOk st0 cap0 u (fun _ n r => (.ret n, r)) :=
+  fun r n hg _ _ => ⟨n, r, rfl, hg, DecSkel.FrameRel.refl _⟩
 
 /-- **gain_ctl_range**.  `OPUS_SET_GAIN(v)` is accepted exactly for `-32768 ≤ v ≤ 32767` and then stores
     `v`; otherwise it answers `OPUS_BAD_ARG` and the stored gain is unchanged. -/
